@@ -14,15 +14,24 @@
 (*  - phantom points -> advance width and left side bearing                *)
 (*  - item variation store (HVAR, MVAR) with or without delta-set index    *)
 (*    map                                                                  *)
-(* A glyph is judged by GlyphVerdict / MetricsVerdict: every output number *)
-(* must be within one font unit of the exact value, and equal to the       *)
-(* default master at the default coordinates.                              *)
+(* Eval evaluates a glyph (as split by the harness' container reader, the   *)
+(* packed data undecoded) at a normalised coordinate tuple.  A glyph is    *)
+(* judged by GlyphVerdict, a metric by MetricVerdict: every output number  *)
+(* must be within one font unit of the exact value (Within1), and equal to *)
+(* the default master at the default coordinates.  GlyphExpect gives the   *)
+(* acceptable interval of every output number (used by MC_Variation for    *)
+(* the CASE lines and by the judge to cross-check the transport).  The     *)
+(* named alternatives (Dev_ names) are listed above the verdict operators. *)
 (*                                                                         *)
 (* Normalised coordinates and region coordinates are raw F2Dot14 integers; *)
 (* point indices are 0-based as in the font, stored in TLA+ functions over *)
 (* 0 .. n-1; byte sequences are 1-based TLA+ sequences.                    *)
 (***************************************************************************)
-EXTENDS Fix, FiniteSets, FiniteSetsExt
+EXTENDS Fix, FiniteSets, FiniteSetsExt, TLC
+
+\* TLC evaluates a function constructor lazily (the body is re-evaluated at every application);
+\* Fn(f) = f, evaluated once and kept as an explicit table.
+Fn(f) == TLCEval(f)
 
 QZero == QOfInt(0)
 QOne  == QOfInt(1)
@@ -110,17 +119,28 @@ DecodeDeltas(b, pos, n) == DeltaRuns(b, pos, n, <<>>)
 \* np = number of points including the four phantom points; shared = decoded shared point
 \* numbers (or a record with all = FALSE, pts = <<>> when the glyph has none).
 \* Result: explicit deltas as functions over 0 .. np-1.
+\* Point numbers are cumulative sums of unsigned differences, hence non-decreasing: one walk over
+\* the list finds, for every point i, the last position holding i (the last occurrence wins, as in
+\* a map filled in list order) or 0.
+RECURSIVE SkipTo(_, _, _, _)
+SkipTo(pts, cnt, k, i) ==               \* largest k' >= k with pts[k+1 .. k'] all <= i
+  IF k < cnt /\ pts[k + 1] <= i THEN SkipTo(pts, cnt, k + 1, i) ELSE k
+RECURSIVE WalkPos(_, _, _, _, _)
+WalkPos(pts, cnt, np, i, k) ==
+  IF i = np THEN <<>>
+  ELSE LET k2 == SkipTo(pts, cnt, k, i) IN
+       <<IF k2 > k /\ pts[k2] = i THEN k2 ELSE 0>> \o WalkPos(pts, cnt, np, i + 1, k2)
+
 TupleDeltas(data, private, shared, np) ==
   LET pn == IF private THEN DecodePoints(data, 1) ELSE [all |-> shared.all, pts |-> shared.pts, next |-> 1]
       cnt == IF pn.all THEN np ELSE Len(pn.pts)
       dd == DecodeDeltas(data, pn.next, 2 * cnt)
-      \* position (1-based) in the delta arrays of point i: the last occurrence wins
-      Where(i) == IF pn.all THEN i + 1
-                  ELSE LET ks == {k \in 1 .. cnt : pn.pts[k] = i} IN IF ks = {} THEN 0 ELSE Max(ks)
-      pos == [i \in 0 .. np - 1 |-> Where(i)]
-  IN [has |-> [i \in 0 .. np - 1 |-> pos[i] # 0],
-      dx  |-> [i \in 0 .. np - 1 |-> IF pos[i] = 0 THEN 0 ELSE dd.ds[pos[i]]],
-      dy  |-> [i \in 0 .. np - 1 |-> IF pos[i] = 0 THEN 0 ELSE dd.ds[cnt + pos[i]]],
+      \* position (1-based) in the delta arrays of point i
+      wp == IF pn.all THEN <<>> ELSE WalkPos(pn.pts, cnt, np, 0, 0)
+      pos == Fn([i \in 0 .. np - 1 |-> IF pn.all THEN i + 1 ELSE wp[i + 1]])
+  IN [has |-> Fn([i \in 0 .. np - 1 |-> pos[i] # 0]),
+      dx  |-> Fn([i \in 0 .. np - 1 |-> IF pos[i] = 0 THEN 0 ELSE dd.ds[pos[i]]]),
+      dy  |-> Fn([i \in 0 .. np - 1 |-> IF pos[i] = 0 THEN 0 ELSE dd.ds[cnt + pos[i]]]),
       used |-> dd.next - 1, count |-> cnt]
 
 \* ---- inferred deltas (IUP) --------------------------------------------------------------------
@@ -143,27 +163,47 @@ ContourOf(ends, i) == CHOOSE c \in 1 .. Len(ends) : ContourStart(ends, c) <= i /
 
 \* delta of point i in one region, both directions, as rationals.
 \* xs, ys: default coordinates (functions over 0 .. n-1), n = number of outline points.
+\* E: the referenced points of the contour of i.
+PointDeltaIn(xs, ys, td, i, E) ==
+  IF E = {} THEN <<QZero, QZero>>
+  ELSE IF Cardinality(E) = 1 THEN LET k == CHOOSE k \in E : TRUE IN <<QOfInt(td.dx[k]), QOfInt(td.dy[k])>>
+  ELSE LET below == {k \in E : k < i}
+           above == {k \in E : k > i}
+           prev == IF below # {} THEN Max(below) ELSE Max(E)
+           next == IF above # {} THEN Min(above) ELSE Min(E)
+       IN <<InferAxis(xs[prev], xs[i], xs[next], td.dx[prev], td.dx[next]),
+            InferAxis(ys[prev], ys[i], ys[next], td.dy[prev], td.dy[next])>>
+
 PointDelta(simple, xs, ys, ends, n, td, i) ==
   IF td.has[i] THEN <<QOfInt(td.dx[i]), QOfInt(td.dy[i])>>
   ELSE IF ~simple \/ i >= n THEN <<QZero, QZero>>            \* components and phantom points: no inference
-  ELSE LET c == ContourOf(ends, i)
-           E == {k \in ContourStart(ends, c) .. ends[c] : td.has[k]}
-       IN IF E = {} THEN <<QZero, QZero>>
-          ELSE IF Cardinality(E) = 1 THEN LET k == CHOOSE k \in E : TRUE IN <<QOfInt(td.dx[k]), QOfInt(td.dy[k])>>
-          ELSE LET below == {k \in E : k < i}
-                   above == {k \in E : k > i}
-                   prev == IF below # {} THEN Max(below) ELSE Max(E)
-                   next == IF above # {} THEN Min(above) ELSE Min(E)
-               IN <<InferAxis(xs[prev], xs[i], xs[next], td.dx[prev], td.dx[next]),
-                    InferAxis(ys[prev], ys[i], ys[next], td.dy[prev], td.dy[next])>>
+  ELSE LET c == ContourOf(ends, i) IN
+       PointDeltaIn(xs, ys, td, i, {k \in ContourStart(ends, c) .. ends[c] : td.has[k]})
+
+\* the same for all np points of the glyph (the referenced set of every contour computed once)
+PointDeltas(simple, xs, ys, ends, n, np, td) ==
+  LET cE == Fn([c \in 1 .. Len(ends) |-> {k \in ContourStart(ends, c) .. ends[c] : td.has[k]}]) IN
+  Fn([i \in 0 .. np - 1 |->
+     IF td.has[i] THEN <<QOfInt(td.dx[i]), QOfInt(td.dy[i])>>
+     ELSE IF ~simple \/ i >= n THEN <<QZero, QZero>>
+     ELSE PointDeltaIn(xs, ys, td, i, cE[ContourOf(ends, i)])])
+
+\* rational arithmetic with the cheap cases taken first (same value as Fix!QAdd / Fix!QMul)
+QAddS(a, b) == IF a.q = b.q THEN [p |-> ZAdd(a.p, b.p), q |-> a.q]
+               ELSE IF a.q = One THEN [p |-> ZAdd(ZMul(a.p, b.q), b.p), q |-> b.q]
+               ELSE IF b.q = One THEN [p |-> ZAdd(a.p, ZMul(b.p, a.q)), q |-> a.q]
+               ELSE QAdd(a, b)
+QMulS(a, b) == IF b.q = One THEN [p |-> ZMul(a.p, b.p), q |-> a.q]
+               ELSE IF a.q = One THEN [p |-> ZMul(a.p, b.p), q |-> b.q]
+               ELSE QMul(a, b)
 
 \* ---- a glyph's variation data as recorded in an event -------------------------------------------
 \* g.pts   sequence of <<x, y>> (outline points / component offsets), g.ends, g.kind
 \* g.ser   the serialized data area of the glyph variation data, g.hasShared
 \* g.tuples sequence of [peak, inter, start, end, private, size] in header order
 NPts(g) == Len(g.pts)
-XS(g) == [i \in 0 .. NPts(g) - 1 |-> g.pts[i + 1][1]]
-YS(g) == [i \in 0 .. NPts(g) - 1 |-> g.pts[i + 1][2]]
+XS(g) == Fn([i \in 0 .. NPts(g) - 1 |-> g.pts[i + 1][1]])
+YS(g) == Fn([i \in 0 .. NPts(g) - 1 |-> g.pts[i + 1][2]])
 
 SharedPts(g) == IF g.hasShared THEN DecodePoints(g.ser, 1) ELSE [all |-> FALSE, pts |-> <<>>, next |-> 1]
 
@@ -187,18 +227,20 @@ Eval(g, phantom, coords) ==
       simple == g.kind = "simple"
       sh == SharedPts(g)
       NT == Len(g.tuples)
-      scal == [k \in 1 .. NT |-> RegionScalar(coords, TupleRegion(g.tuples[k]))]
-      tds == [k \in 1 .. NT |-> IF QIsZero(scal[k]) THEN <<>>
-                                 ELSE TupleDeltas(TupleData(g, k), g.tuples[k].private, sh, np)]
+      scal == Fn([k \in 1 .. NT |-> RegionScalar(coords, TupleRegion(g.tuples[k]))])
+      tds == Fn([k \in 1 .. NT |-> IF QIsZero(scal[k]) THEN <<>>
+                                 ELSE TupleDeltas(TupleData(g, k), g.tuples[k].private, sh, np)])
+      pds == Fn([k \in 1 .. NT |-> IF QIsZero(scal[k]) THEN <<>>
+                                 ELSE PointDeltas(simple, xs, ys, g.ends, n, np, tds[k])])
       Def(i, d) == IF i < n THEN g.pts[i + 1][d] ELSE phantom[i - n + 1][d]
       RECURSIVE Acc(_, _, _, _)
       Acc(i, d, k, acc) ==
         IF k > NT THEN acc
         ELSE IF QIsZero(scal[k]) THEN Acc(i, d, k + 1, acc)
-        ELSE LET pd == PointDelta(simple, xs, ys, g.ends, n, tds[k], i)[d] IN
-             Acc(i, d, k + 1, IF QIsZero(pd) THEN acc ELSE QAdd(acc, QMul(scal[k], pd)))
-  IN [x |-> [i \in 0 .. np - 1 |-> Acc(i, 1, 1, QOfInt(Def(i, 1)))],
-      y |-> [i \in 0 .. np - 1 |-> Acc(i, 2, 1, QOfInt(Def(i, 2)))],
+        ELSE LET pd == pds[k][i][d] IN
+             Acc(i, d, k + 1, IF QIsZero(pd) THEN acc ELSE QAddS(acc, QMulS(scal[k], pd)))
+  IN [x |-> Fn([i \in 0 .. np - 1 |-> Acc(i, 1, 1, QOfInt(Def(i, 1)))]),
+      y |-> Fn([i \in 0 .. np - 1 |-> Acc(i, 2, 1, QOfInt(Def(i, 2)))]),
       scal |-> scal, tds |-> tds]
 
 ExactPoints(g, phantom, coords) == Eval(g, phantom, coords)
@@ -315,10 +357,13 @@ GlyphVerdict(g, a, o) ==
         ELSE {<<"point", 2 * i + d - 1, o.pts[i + 1][d], AcceptInterval(C(d, i))>> :
                  <<i, d>> \in {p \in (0 .. n - 1) \X {1, 2} : ~Within1(o.pts[p[1] + 1][p[2]], C(p[2], p[1]))}}
       adv == ExactAdvance(a, n, ev)
+      \* a phantom point, or the distance of the two, beyond the int16 range is a class of its own
+      OutI16(x) == QCmp(x, QOfInt(32767)) > 0 \/ QCmp(x, QOfInt(-32768)) < 0
+      wide == IF OutI16(ev.x[n]) \/ OutI16(ev.x[n + 1]) \/ OutI16(QSub(ev.x[n + 1], ev.x[n])) THEN "-i16" ELSE ""
       advBad ==
         IF still THEN (IF o.adv = a.adv THEN {} ELSE {<<"default-adv", 0, o.adv, <<a.adv>>>>})
         ELSE IF Within1(o.adv, adv) \/ (QLt0(adv) /\ o.adv = 0) THEN {}
-        ELSE {<<"adv-" \o (IF a.hvar.present THEN "hvar" ELSE "phantom"), 0, o.adv, AcceptInterval(adv)>>}
+        ELSE {<<"adv-" \o (IF a.hvar.present THEN "hvar" ELSE "phantom") \o wide, 0, o.adv, AcceptInterval(adv)>>}
       rule == LsbRule(a)
       pp1 == ev.x[n]
       lsbBad ==
@@ -332,7 +377,7 @@ GlyphVerdict(g, a, o) ==
                  xm == IF a.kind = "empty" THEN QZero ELSE QMinFrom(ev.x, 1, n, ev.x[0])
                  fromExact == exactKnown /\ Within1(o.lsb, QSub(xm, pp1))
              IN IF fromOut \/ fromExact \/ (~o.xminKnown /\ ~exactKnown) THEN {}
-                ELSE {<<"lsb-outline", 0, o.lsb,
+                ELSE {<<"lsb-outline" \o wide, 0, o.lsb,
                         IF exactKnown THEN AcceptInterval(QSub(xm, pp1)) ELSE AcceptInterval(QSub(QOfInt(o.xmin), pp1))>>}
       active == Cardinality({k \in 1 .. Len(g.tuples) : ~QIsZero(ev.scal[k])})
       \* points whose delta is inferred in some applicable tuple
@@ -340,7 +385,8 @@ GlyphVerdict(g, a, o) ==
                   ELSE Cardinality({i \in 0 .. n - 1 : \E k \in 1 .. Len(g.tuples) :
                                        ~QIsZero(ev.scal[k]) /\ ~ev.tds[k].has[i]})
       frac == IF still \/ ~Varied(a) THEN 0
-              ELSE Cardinality({p \in (0 .. n - 1) \X {1, 2} : ~QIsInt(C(p[2], p[1]), QFloor(C(p[2], p[1])))})
+              ELSE IF ~shapeOK THEN 0
+              ELSE Cardinality({p \in (0 .. n - 1) \X {1, 2} : ~QIsInt(C(p[2], p[1]), o.pts[p[1] + 1][p[2]])})
   IN [bad |-> shapeBad \cup pointBad \cup advBad \cup lsbBad,
       stat |-> [kind |-> a.kind, still |-> still, tuples |-> Len(g.tuples), active |-> active,
                 inferred |-> inferred, frac |-> frac, n |-> n,
